@@ -128,7 +128,14 @@ func vecOrNil(v ad.ConstVector) any {
 /* Rprop (AD objective and explicit-gradient variant)
  * -------------------------------------------------------------------------- */
 
-func caseRprop(cs *fw.Case, directed int) {
+// caseRprop: mode "" is the general workload; the constrained modes place
+// the unconstrained minimiser outside the feasible set and steer a trial step
+// into the infeasible region where the stopping criterion holds:
+//   "hit"  - every coordinate of x0 is one initial step away from the minimiser
+//            (separable objective), so the first trial point is the minimiser;
+//   "near" - loose epsilon, minimiser only slightly behind the boundary, so
+//            infeasible points next to the boundary satisfy |grad| < epsilon.
+func caseRprop(cs *fw.Case, directed int, mode string) {
 	if directed >= 0 {
 		cs.R = prng.For(20261003, "rprop.directed", cs.Index) // independent of VERIF_SEED
 	}
@@ -147,11 +154,44 @@ func caseRprop(cs *fw.Case, directed int) {
 		variant = "RunGradient"
 		ckind = "none"
 	}
+	if mode != "" {
+		variant = r.Pick([]string{"RunGradient", "RunGradient", "Run"})
+		ckind = r.Pick([]string{"box", "halfspace"})
+		n = r.Range(1, 4)
+		fam = pickFamily(r, n, []string{"cosh", "quartic"})
+		maxIter = 2000
+		m, _ := fam.Minimiser()
+		x0 = make([]float64, n)
+		if mode == "hit" {
+			step = r.LogUniform(0.05, 2)
+			eps = r.LogUniform(1e-8, 1e-4)
+			for i := range x0 {
+				x0[i] = m[i] - step
+				if r.Bool() {
+					x0[i] = m[i] + step
+				}
+			}
+		} else {
+			eps = r.LogUniform(1e-2, 1e-1)
+			for i := range x0 {
+				x0[i] = m[i] + r.Uniform(-1.5, 1.5)
+			}
+		}
+	}
 	target, _ := fam.Minimiser()
 	c := genCons(r, ckind, x0, target)
+	if mode != "" {
+		c = consExcluding(r, ckind, x0, target, mode == "near")
+	}
 	inf := infeasible(c, fam)
+	if mode != "" {
+		cs.Cover("rprop-constrained:" + mode + ":" + variant)
+		if inf {
+			cs.Cover("rprop-constrained:minimiser-infeasible")
+		}
+	}
 	ru := &run{cs: cs, monitor: "rprop", routine: "rprop." + variant, opts: "-", class: fam.Name()}
-	ru.witness = map[string]any{"objective": fam.Describe(), "x0": x0, "epsilon": eps, "maxIterations": maxIter, "step": step, "eta": eta, "constraints": c.describe()}
+	ru.witness = map[string]any{"objective": fam.Describe(), "x0": x0, "epsilon": eps, "maxIterations": maxIter, "step": step, "eta": eta, "constraints": c.describe(), "mode": mode}
 
 	evals, hooks := 0, 0
 	var lastEval []float64
